@@ -80,9 +80,14 @@ package commitment
 //@   loop 3 invariant best >= 0 && (best == 0 || (inDom(votes, hash) && votes[hash] == best))
 //@   loop 3 invariant forall h HashT :: visited(h) ==> votes[h] <= best
 
+//@ ghost type ECT = *ExecutorCommitment
+//@ ghost var GPooled map[*ExecutorCommitment]bool
+// GPooled[e]: the commitment OBJECT e was handed to a pool (the pool keeps the pointer: SchedulerCommitment.Commitment)
+
 //@ func Pool.AddVerifiedExecutorCommitment
 //@   props C11
 //@   requires p != nil && c != nil && ec != nil
+//@   ensures-trusted GPooled[ec] && (forall e ECT :: e != ec ==> GPooled[e] == old(GPooled[e]))
 //@   ensures p.Discrepancy == old(p.Discrepancy)
 //@   ensures err == nil ==> (exists j int :: scheduler.InRange(c, j) && scheduler.Key(c, j) == ec.NodeID)
 //@   ensures err == nil && old(p.Discrepancy) ==> (exists j int :: scheduler.InRange(c, j) && scheduler.Key(c, j) == ec.NodeID && (forall k int :: j <= k && k < len(c.Members) ==> scheduler.RoleAt(c, k) == scheduler.RoleBackupWorker))
@@ -120,6 +125,7 @@ package commitment
 
 //@ func VerifyExecutorCommitment
 //@   props C11
+//@   ensures-trusted forall e ECT :: GPooled[e] == old(GPooled[e])
 //@   ensures err == nil && old(commit.Header.Failure) != FailureNone ==> old(commit.NodeID) != old(commit.Header.SchedulerID)
 //@   note a failure indication - WHATEVER its failure code - by the scheduler of the proposal itself is never admitted: admitted, it becomes the scheduler's commitment of the round (with no vote), and the other workers' votes for the real result would finalize a round on a commitment that carries no state root (seed C11_i dispatched on the two named failure codes, so FailureStateUnavailable fell through both arms)
 //@   requires blk != nil && rt != nil && commit != nil
